@@ -72,13 +72,7 @@ func runC17(c *Ctx) []Violation {
 	// chunks of a tape-chosen fixed size.
 	tailChunk := []int{1, 7, 128, 4096, 4097, 65536}[c.T.Intn("c17.tailchunk", 6)]
 	if len(plan.Cuts) > 0 && plan.Cuts[len(plan.Cuts)-1] < len(ww.Input) {
-		for pos := plan.Cuts[len(plan.Cuts)-1] + tailChunk; ; pos += tailChunk {
-			if pos >= len(ww.Input) {
-				plan.Cuts = append(plan.Cuts, len(ww.Input))
-				break
-			}
-			plan.Cuts = append(plan.Cuts, pos)
-		}
+		plan.TailChunk = tailChunk
 	}
 	c.Note("world %s with %d records from %d prototypes (%d input bytes); env %s", w.Name, len(texts), len(protos), len(ww.Input), env)
 	c.Note("delivery plan: %s, tail chunk %d", plan.Mode, tailChunk)
